@@ -411,3 +411,32 @@ package contractcourt
 //@        exists(k, 0, 32, htlcResolution.Preimage[k] != 0) ==> value.Preimage == htlcResolution.Preimage
 //@   site store htlcSuccessResolver.htlcResolution as same-outpoint: assert value.ClaimOutpoint.Hash == htlcResolution.ClaimOutpoint.Hash &&
 //@        value.ClaimOutpoint.Index == htlcResolution.ClaimOutpoint.Index
+//@
+//@ // ---- a checkpoint is durable: the resolver handed in is written under its key in the same transaction as its reports
+//@ // ---- (round-5 seeded change C13-14 persisted the reports and dropped the resolver)
+//@ func (b *boltArbitratorLog) checkpointContract
+//@   props C13
+//@   site call Update: assert arg(0) == b.db
+//@   site return: assert result == ret(Update)
+//@
+//@ func (b *boltArbitratorLog) checkpointContract$1
+//@   props C13
+//@   bounds-safe
+//@   loop * havoc
+//@   site call writeResolver: assert arg(1) == retn(fetchContractWriteBucket, 0) && arg(2) == c && retn(fetchContractWriteBucket, 1) == nil
+//@   site call PutResolverReport: assert arg(1) == report && ret(writeResolver) == nil
+//@   ensures result == nil ==> called(writeResolver) && ret(writeResolver) == nil
+//@
+//@ // ---- the commit set that confirmed is written down for EVERY close, also one without HTLCs: after a restart the resolvers of the
+//@ // ---- commit, anchor and breach outputs are relaunched from it (round-5 seeded change C13-15 skipped the write for an empty set)
+//@ func (b *boltArbitratorLog) InsertConfirmedCommitSet
+//@   props C13
+//@   site call Batch: assert arg(0) == b.db
+//@   site return: assert result == ret(Batch)
+//@
+//@ func (b *boltArbitratorLog) InsertConfirmedCommitSet$1
+//@   props C13
+//@   bounds-safe
+//@   site call encodeCommitSet: assert arg(1) == c
+//@   site call Put: assert arg(1) == commitSetKey && ret(encodeCommitSet) == nil
+//@   ensures result == nil ==> called(Put)
